@@ -87,6 +87,13 @@ def _candidates(crate, vocab):
             continue
         if _known(name, vocab):
             continue
+        # predicates stay what they are: a bool-returning helper is a named test, and rules look at tests as events
+        # (through the helper, see rules.events_of / props.common.presence_tests)
+        if (b.ret or "") == "bool":
+            continue
+        cor_ = crate.bodies.get(name + "::{closure#0}")
+        if cor_ is not None and cor_.kind == "coroutine" and (cor_.ret or "") == "bool":
+            continue
         cor = crate.bodies.get(name + "::{closure#0}")
         if cor is not None and cor.kind == "coroutine":
             # async fn: the shell must be the plain trampoline (one aggregate, no calls)
